@@ -329,6 +329,45 @@ def main(argv):
             out = fb.get(line, [])
             c.count((fl, line), bucket="sanitizer/" + fl)
             oracle(c, line + " # " + fl, out if out else ["E -1 MISSING"])
+    # --- EINTR: consumers blocked in sem_wait are interrupted by a signal handled without SA_RESTART; the wait must
+    #     be retried (no token may be invented): real threads, oracle only
+    eintr = ["kind=usq mode=eintr runs=3 n=40 want=40",
+             "kind=pcq mode=eintr runs=3 cap=1 prod=30 cons=30",
+             "kind=pcq mode=eintr runs=3 cap=4 prod=20,20 cons=15,25",
+             "kind=pcq mode=eintr runs=3 swap=1 cap=1 prod=10,10 cons=20"]
+    eb, _, eerr = run_blocks(impl, eintr, nproc=len(eintr), timeout=120)
+    for line in eintr:
+        c.count(("eintr", line), bucket="eintr")
+        oracle(c, line, eb.get(line) or ["E -1 MISSING"])
+    # --- the queue's user named in the anchors: warc_parallel (PCQueue<std::string>, ProduceSwap/ConsumeSwap, one
+    #     empty-string end marker per worker): every record exactly once, termination, for -j 1..4
+    ok, blog = build_repo(["warc_parallel"])
+    if not ok:
+        c.broken.append("build of warc_parallel failed: " + blog[-400:])
+    else:
+        for jobs_n, nrec in ((1, 5), (2, 25), (3, 40), (4, 60), (2, 0), (4, 3)):
+            recs = []
+            for i in range(nrec):
+                body = (b"body %d " % i) * (i % 9 + 1) + (b"Z" * 3000 if i % 11 == 0 else b"")
+                recs.append(b"WARC/1.0\r\nWARC-Type: response\r\nX-Id: %d\r\nContent-Length: %d\r\n\r\n" % (i, len(body)) + body + b"\r\n\r\n")
+            c.count(("warc_parallel", jobs_n, nrec), bucket="warc_parallel")
+            desc = {"tool": "warc_parallel -j %d cat" % jobs_n, "records": nrec,
+                    "how": "%d synthetic WARC records (X-Id: i, bodies of varying size) on stdin" % nrec}
+            st, out, err = run_tool([repo_bin("warc_parallel"), "-j", str(jobs_n), "cat"], b"".join(recs), timeout=20 if c.tier == "quick" else 60)
+            if st == "timeout":
+                c.violation("warc-hang: warc_parallel -j %d did not terminate on %d records (an end marker never reached a worker)" % (jobs_n, nrec), desc)
+                continue
+            got, pos, bad = [], 0, st != 0
+            try:
+                while pos < len(out):
+                    h = out.index(b"\r\n\r\n", pos)
+                    n = int(re.search(rb"Content-Length: (\d+)", out[pos:h]).group(1))
+                    got.append(out[pos:h + 4 + n + 4])
+                    pos = h + 4 + n + 4
+            except Exception:
+                bad = True
+            if bad or sorted(got) != sorted(recs):
+                c.violation("warc-exactly-once: warc_parallel -j %d on %d records: status %s, %d records out, multiset differs" % (jobs_n, nrec, st, len(got)), desc)
     # --- thorough: the unbounded queue inside a real wrapper under TSan (its consumer-side Empty() is used by foldfilter)
     if c.tier == "thorough":
         ok, blog = build_repo(["foldfilter"], flavour="tsan")
